@@ -86,8 +86,9 @@ def fixed_group(case):
         if solver in ("implicit", "crank-nicolson") and amax * dt >= 0.7:
             refs.append(f"{solver}: |z|>=0.7 fixed-point iteration not contractive enough (not explored)")
             continue
-        for N in STEPS:
-            for t0 in T0S:
+        thorough = case.get("tier") == "thorough"
+        for N in STEPS + ([8, 13] if thorough else []):
+            for t0 in T0S + ([1e3, 0.1] if thorough else []):
                 if only and [N, t0, kind] != only:
                     continue
                 log = []
@@ -260,10 +261,11 @@ def adaptive_group(case):
         )
 
     lam = np.array([0.5, 4.0]) if lamname == "multi" else float(lamname)
-    for T in ADAPT_T:
-        for tol in ADAPT_TOL:
-            for dt0 in ADAPT_DT0:
-                for t0 in ADAPT_T0:
+    thorough = case.get("tier") == "thorough"
+    for T in ADAPT_T + ([10.0, 0.05] if thorough else []):
+        for tol in ADAPT_TOL + ([1e-1, 1e-5] if thorough else []):
+            for dt0 in ADAPT_DT0 + ([1e-5, 1.0] if thorough else []):
+                for t0 in ADAPT_T0 + ([-k / 7 for k in range(1, 7)] + [-1e-3, -10.0, 7.3] if thorough else []):
                     if only and [T, tol, dt0, t0] != only:
                         continue
                     results = {}
@@ -366,19 +368,21 @@ def jit_group(case):
 
 def main(run):
     tier = run.tier
-    dts = DTS if tier == "thorough" else [1.0, 0.1, 1 / 3, 0.01]
+    dts = DTS + [0.5, 0.05, 0.7, 1e-3] if tier == "thorough" else [1.0, 0.1, 1 / 3, 0.01]
+    rates = RATES + (["0.7", "(-0.25+0.5j)", "-5.0", "(0.5-1j)"] if tier == "thorough" else [])
     cases = [
-        {"solver": s, "backend": b, "a": a, "dt": dt}
+        {"solver": s, "backend": b, "a": a, "dt": dt, "tier": tier}
         for s in SOLVERS
         for b in BACKENDS
-        for a in RATES
+        for a in rates
         for dt in dts
     ]
     run.explore("checks.c06:fixed_group", cases, mode="I", part="fixed-step closed forms")
     cases = [{"solver": s, "backend": b} for s in SOLVERS for b in BACKENDS]
     run.explore("checks.c06:stage_group", cases, mode="I", part="stage times (quadrature sums)", chunksize=1)
     run.explore("checks.c06:scipy_group", [{"backend": b} for b in BACKENDS], mode="I", part="scipy solver", chunksize=1)
-    cases = [{"solver": s, "lam": l} for s in ("euler", "runge-kutta") for l in ADAPT_LAMS]
+    lams = ADAPT_LAMS + (["0.1", "2.0", "20.0"] if tier == "thorough" else [])
+    cases = [{"solver": s, "lam": l, "tier": tier} for s in ("euler", "runge-kutta") for l in lams]
     run.explore("checks.c06:adaptive_group", cases, mode="I", part="adaptive", chunksize=1, limit=1200)
     jc = []
     for s in SOLVERS:
